@@ -3,7 +3,7 @@ from . import robustgen as R
 
 ID = "C03"
 LEVEL = "proof"
-LEAN_MODULES = ["DracoProps.C03", "DracoProps.C03Eb"]
+LEAN_MODULES = ["DracoProps.C03", "DracoProps.C03Kd", "DracoProps.C03Eb"]
 RULE = ("valid streams from the real encoder (random meshes of every topology family of props/geomgen.py, grids with "
         "holes / pinched vertices, grids whose integer attributes have seams along different lines, point clouds; "
         "sequential, kd-tree, Edgebreaker standard / valence; random option sets, metadata) and the small .drc files of "
